@@ -9,6 +9,11 @@
 (* Histories: messages of one type with list / string / payload lengths    *)
 (* from Lens, on two connections sharing the cache, handled one after the  *)
 (* other (the object goes back to the cache after its reply).              *)
+(* The same holds for the byte buffers frames are received into: a frame   *)
+(* whose body ends before its message is complete (Frames.tla, kind        *)
+(* `truncated') is not a message - the harness sends every such prefix     *)
+(* after a complete message on another connection and requires that it is  *)
+(* rejected and that the backend sees nothing of it.                       *)
 (***************************************************************************)
 EXTENDS Integers, Sequences, FiniteSets, TLC
 
